@@ -172,6 +172,22 @@ func TestLogCache(t *testing.T) {
 				} else {
 					errB = errInjected
 				}
+			case "storegap":
+				var a, b []*raft.Log
+				for _, k := range []int{op.I, op.J} {
+					d := []byte(fmt.Sprint(nextver[k]))
+					a = append(a, &raft.Log{Index: uint64(k), Term: 1, Data: d})
+					b = append(b, &raft.Log{Index: uint64(k), Term: 1, Data: d})
+				}
+				backend.failNext = op.Fail
+				errC = lc.StoreLogs(a)
+				if !op.Fail {
+					errB = bare.StoreLogs(b)
+					nextver[op.I]++
+					nextver[op.J]++
+				} else {
+					errB = errInjected
+				}
 			case "delete":
 				backend.failNext = op.Fail
 				errC = lc.DeleteRange(uint64(op.I), uint64(op.J))
